@@ -39,6 +39,27 @@ func VH_C15_conversion() {
 	hA := hook.VNewHook("hookA", vhConvCfg("convA", conversion.Rule{FromVersion: "v1", ToVersion: "v2"}), e.kmgr, e.smgr, nil, cmgr)
 	hB := hook.VNewHook("hookB", vhConvCfg("convB", conversion.Rule{FromVersion: "v2", ToVersion: "v3"}), e.kmgr, e.smgr, nil, cmgr)
 	e.hooks = append(e.hooks, hA, hB)
+	// optionally a third hook declares hookA's step under another spelling of the
+	// versions (with the group): either declaration may serve the step, but a hook
+	// is only ever run for a rule it declared itself
+	shadow := zz.Bool("same_step_declared_with_group_by_another_hook")
+	if shadow {
+		hC := hook.VNewHook("hookC", vhConvCfg("convC", conversion.Rule{FromVersion: "g.io/v1", ToVersion: "g.io/v2"}), e.kmgr, e.smgr, nil, cmgr)
+		e.hooks = append(e.hooks, hC)
+	}
+	declared := map[string]conversion.Rule{
+		"hookA": {FromVersion: "v1", ToVersion: "v2"},
+		"hookB": {FromVersion: "v2", ToVersion: "v3"},
+		"hookC": {FromVersion: "g.io/v1", ToVersion: "g.io/v2"},
+	}
+	short := func(v string) string {
+		for i := len(v) - 1; i >= 0; i-- {
+			if v[i] == '/' {
+				return v[i+1:]
+			}
+		}
+		return v
+	}
 	e.finish()
 	op := e.op
 	op.TaskQueues.NewNamedQueue("main", nil)
@@ -80,9 +101,10 @@ func VH_C15_conversion() {
 		in := ""
 		if len(ctxs) == 1 && ctxs[0].ConversionReview != nil {
 			for _, o := range ctxs[0].ConversionReview.Request.Objects {
-				in += conversion.VObjectVersion(o) + ","
+				in += short(conversion.VObjectVersion(o)) + ","
 			}
 			zz.Assert(ctxs[0].FromVersion != "" && ctxs[0].ToVersion != "", "context_names_the_rule")
+			zz.Assert(ctxs[0].FromVersion == declared[h.Name].FromVersion && ctxs[0].ToVersion == declared[h.Name].ToVersion, "hook_runs_only_for_a_rule_it_declared")
 		}
 		inputs = append(inputs, in)
 		out := outcomes[0]
@@ -135,10 +157,13 @@ func VH_C15_conversion() {
 	if firstBad >= 0 {
 		wantRuns = firstBad + 1
 	}
-	zz.Assert(len(ran) >= 1 && ran[0] == chain[0], "first_step_runs_first")
+	sameStep := func(got, want string) bool {
+		return got == want || (shadow && want == "hookA" && got == "hookC")
+	}
+	zz.Assert(len(ran) >= 1 && sameStep(ran[0], chain[0]), "first_step_runs_first")
 	zz.Assert(len(ran) == wantRuns, "no_step_after_a_failed_step")
 	for i := 0; i < len(ran) && i < len(chain); i++ {
-		zz.Assert(ran[i] == chain[i], "hooks_invoked_in_chain_order")
+		zz.Assert(sameStep(ran[i], chain[i]), "hooks_invoked_in_chain_order")
 	}
 	// each step receives the previous output
 	if len(inputs) > 0 {
@@ -159,12 +184,12 @@ func VH_C15_conversion() {
 		zz.Assert(success, "all_steps_succeeded_gives_success")
 		zz.Assert(len(resp.ConvertedObjects) == nobj, "as_many_objects_as_requested")
 		for _, o := range resp.ConvertedObjects {
-			zz.Assert(conversion.VObjectVersion(o) == to, "objects_have_the_desired_version")
+			zz.Assert(short(conversion.VObjectVersion(o)) == to, "objects_have_the_desired_version")
 		}
 	} else {
 		zz.Assert(!success, "a_failed_step_fails_the_conversion")
 		if outcomes[firstBad] == 1 {
-			zz.Assert(resp.Result.Message == "cannot convert: "+chain[firstBad], "failure_carries_the_hooks_own_message")
+			zz.Assert(resp.Result.Message == "cannot convert: "+ran[firstBad], "failure_carries_the_hooks_own_message")
 		}
 	}
 	zz.Reach("end")
